@@ -87,7 +87,9 @@ func (g *Gen) NsStage(n NsNames, d int) *Node {
 	}
 }
 
-var NsVerbs = []string{"find", "aggregate", "insert", "update", "delete", "count", "findAndModify", "findOneAndUpdate", "findOneAndDelete", "findOneAndReplace", "countDocuments", "getMore"}
+var NsVerbs = []string{"find", "aggregate", "insert", "update", "delete", "count", "findAndModify", "findOneAndUpdate", "findOneAndDelete", "findOneAndReplace", "countDocuments", "getMore",
+	// the server's own alias of findAndModify (both spellings are accepted and logged as typed)
+	"findandmodify"}
 
 // NsCase builds one line for namespace db.coll.
 func (g *Gen) NsCase(n NsNames, db, coll, verb, carrier string, depth int) *Case {
@@ -110,7 +112,7 @@ func (g *Gen) NsCase(n NsNames, db, coll, verb, carrier string, depth int) *Case
 		cmd = ObjN("delete", cn(), "deletes", ArrN(ObjN("q", g.simpleQuery(), "limit", FreeI(1))), "ordered", keep(BoolN(true)))
 	case "count", "countDocuments":
 		cmd = ObjN(verb, cn(), "query", g.simpleQuery())
-	case "findAndModify", "findOneAndUpdate", "findOneAndReplace":
+	case "findAndModify", "findOneAndUpdate", "findOneAndReplace", "findandmodify":
 		cmd = ObjN(verb, cn(), "query", g.simpleQuery(), "update", ObjN("$set", ObjN("x", g.Lit("update-set"))), "new", keep(BoolN(true)))
 	case "findOneAndDelete":
 		cmd = ObjN(verb, cn(), "query", g.simpleQuery())
